@@ -1,4 +1,4 @@
 (* Corr/C07.v — correspondence on whole executions (Corr/ExecCorr.v) and the C07 checker (Corr/ExecCheckers.v). *)
 From FS Require Export Corr.ExecCorr Corr.ExecCheckers.
 Definition case := hcase.
-Definition checker_failures (cs : list hcase) : list Z := failures_of c07_ok cs.
+Definition checker_failures (cs : list hcase) : list Z := failures_of c07_ok cs ++ failures_always c07_late_ok cs.
